@@ -11,7 +11,7 @@ NAN = float('nan')
 
 class Result:
     def __init__(self, name, bound):
-        self.name = name; self.bound = bound; self.evaluations = 0; self.distinct = set(); self.failures = []; self.exhaustive = False
+        self.name = name; self.bound = bound; self.evaluations = 0; self.distinct = set(); self.failures = []; self.exhaustive = False; self.undecided = []
 
     def case(self, key):
         self.evaluations += 1; self.distinct.add(key)
@@ -21,6 +21,9 @@ class Result:
             self.failures.append(dict(what=what, witness=witness, script=script))
 
     def report(self, run, prop_key):
+        for u in self.undecided[:3]:
+            if u not in run.undecided:
+                run.undecided.append(u)
         run.bounded_clause(self.name, self.bound, self.evaluations, len(self.distinct), self.exhaustive, failures=len(self.failures))
         for f in self.failures[:2]:
             key = dict(monitor=self.name, what=f['what'][:120])
@@ -91,15 +94,41 @@ def mon_area(rng, tier):
                  'all grids with <= %d cells over the 8 ESRI codes + sink + invalid code, every outlet, every inlet subset of size <= 1 (exhaustive); %s random grids up to 5x5 with up to 2 inlets' % (exh, 150 if tier == 'quick' else 3000))
     res.exhaustive = True
 
+    # the wrapper must enter the kernel in the state the proved contracts c_delineate_area#reach / #once require beyond memory safety:
+    # ESRI direction table, result vector pre-filled with -1, the two work buffers as long as the result vector
+    import c_hydrodiy_gis as CG
+    real_kernel = CG.delineate_area
+    entry = dict(calls=0, bad=None)
+
+    def kernel_entry(fdcode, flowdir, outlet, inlets, cells, b1, b2):
+        entry['calls'] += 1
+        try:
+            ok = (np.asarray(fdcode).ravel().tolist() == list(codes) and cells.dtype == np.int64 and bool((np.asarray(cells) == -1).all())
+                  and len(b1) >= len(cells) and len(b2) >= len(cells))
+        except Exception as e:
+            ok = False
+        if not ok and entry['bad'] is None:
+            entry['bad'] = 'kernel entered with a direction table / pre-filled vector / buffers that the proved contract does not allow'
+        return real_kernel(fdcode, flowdir, outlet, inlets, cells, b1, b2)
+
     @icontract.ensure(lambda result, nr, nc, fd, outlet, inlets: result is None or result['ok'], 'area == reachability oracle')
     def checked(nr, nc, fd, outlet, inlets):
         n = nr * nc
         ca = Catchment('c', make_flowdir(nr, nc, fd))
+        entry['bad'] = None
+        CG.delineate_area = kernel_entry
         try:
             quiet(ca.delineate_area, outlet, inlets if inlets else None, n + 2)
         except ValueError:
+            CG.delineate_area = real_kernel
             # an error is acceptable only when the grid has a cycle upstream of the outlet (the buffer fills up)
             return dict(ok=has_cycle(nr, nc, fd, codes), got='ValueError')
+        finally:
+            CG.delineate_area = real_kernel
+        if entry['bad'] is not None and not res.undecided:
+            # not a violation of C06 by itself (the outcome is judged by the oracle below): the proofs of c_delineate_area#reach / #once
+            # do not cover the API on this tree
+            res.undecided.append('Catchment.delineate_area: %s (first seen on a %dx%d grid); the proved contracts c_delineate_area#reach / #once do not apply to the python API on this tree' % (entry['bad'], nr, nc))
         got = list(ca.idxcells_area)
         # oracle: follow the downstream chain of every cell
         reach = set()
